@@ -2,6 +2,7 @@
 // iterativeDeepening on the calling thread, collecting every reported PV line (DESIGN.md 3.8, bulk search experiments).
 #pragma once
 #include "harness/bridge.hpp"
+#include <functional>
 #include "search.hpp"
 #include "transpositionTable.hpp"
 #include "parallel.hpp"
@@ -67,6 +68,7 @@ struct Params {
     std::vector<U64> history;            // zobrist hashes of earlier positions (repetition list)
     bool nextGeneration = true;
     int minTimeMs = -1, maxTimeMs = -1;  // Search::timeLimit (real milliseconds; -1 = none)
+    std::function<void(Search&)> onSearchCreated;   // lets a harness keep a handle on the Search object (fault injection)
 };
 
 struct Outcome {
@@ -103,6 +105,7 @@ inline Outcome run(Env& env, const Position& pos, const Params& p) {
     if (!p.searchMoves.empty()) moves.filter(p.searchMoves);
     out.rootMoves = moves.size;
     sc.timeLimit(p.minTimeMs, p.maxTimeMs);
+    if (p.onSearchCreated) p.onSearchCreated(sc);
     sc.setWhiteContempt(p.whiteContempt);
     if (p.nextGeneration) env.tt.nextGeneration();
     out.best = sc.iterativeDeepening(moves, p.maxDepth, p.maxNodes, p.maxPV, false, p.minProbeDepth, p.clearHistory);
